@@ -45,3 +45,6 @@ func (mp *MemPool) VerifC04Len() (length int, cached int) {
 
 // VerifC04StateRoot is the root of the state the pool validates against (mp.stateDB).
 func (mp *MemPool) VerifC04StateRoot() []byte { return mp.stateDB.GetRoot() }
+
+// VerifC04BestNo is the number of the block the pool was last notified of (mp.bestBlockInfo.No).
+func (mp *MemPool) VerifC04BestNo() uint64 { return mp.bestBlockInfo.No }
